@@ -60,19 +60,29 @@ def round_grid(v):
 LABEL_POOLS = [['a', 'b', 'c', 'd'], ['d', 'c', 'b', 'a'], ['x10', 'x9', 'x1', 'x2'], ['B', 'a', 'C', 'b']]
 
 
-def make_axis(kind, labels, values):
-    """kind 'cat' -> (array of labels, codes, categories) ; 'num' -> (float array, None, None)"""
+def make_axis(kind, labels, values, order=None):
+    """kind 'cat' -> (array of labels, codes, categories) ; 'num' -> (float array, None, None).
+    `order` = explicit category order of the component (may contain labels that do not occur in the data); the plotted position
+    of an element is the index of its label in the component's categories (default: sorted unique labels)"""
     if kind == 'cat':
         arr = np.array(labels)
-        cats = np.unique(arr)
-        codes = np.searchsorted(cats, arr)
+        if order is None:
+            cats = np.unique(arr)
+            codes = np.searchsorted(cats, arr)
+        else:
+            cats = np.array(list(order))
+            pos = {lab: i for i, lab in enumerate(order)}
+            codes = np.array([pos[lab] for lab in labels], dtype=int)
         return arr, codes, cats
     return np.array(values, dtype=float), None, None
 
 
-def build_data(xs, ys):
+def build_data(xs, ys, xorder=None, yorder=None):
     from glue.core import Data
-    d = Data(x=xs, y=ys)
+    from glue.core.component import CategoricalComponent
+    d = Data()
+    d.add_component(xs if xorder is None else CategoricalComponent(xs, categories=np.array(list(xorder))), 'x')
+    d.add_component(ys if yorder is None else CategoricalComponent(ys, categories=np.array(list(yorder))), 'y')
     return d
 
 
@@ -85,14 +95,16 @@ def canon_state(st, d, xcats, ycats):
         return 0 if att is xid else 1
 
     def codes_of(labels, ax):
-        cats = xcats if ax == 0 else ycats
-        return sorted(int(np.searchsorted(cats, lab)) for lab in labels)
+        cats = list(xcats if ax == 0 else ycats)
+        return sorted(cats.index(lab) for lab in labels)
     if isinstance(st, S.RangeSubsetState):
         return ('range', axis_of(st.att), F(float(st.lo)), F(float(st.hi)))
     if isinstance(st, S.CategoricalROISubsetState):
         ax = axis_of(st.att)
         cats = st.roi.categories
-        return ('cat', ax, codes_of([] if cats is None else list(cats), ax))
+        stored = [] if cats is None else [str(c) for c in cats]
+        # CategoricalROI.contains binary-searches the stored categories: they have to be in ascending label order
+        return ('cat', ax, codes_of([] if cats is None else list(cats), ax), all(a < b for a, b in zip(stored, stored[1:])))
     if isinstance(st, S.AndState):
         return ('and', canon_state(st.state1, d, xcats, ycats), canon_state(st.state2, d, xcats, ycats))
     if isinstance(st, S.CategoricalROISubsetState2D):
@@ -137,7 +149,7 @@ def states_agree(a, b, tol, near=None):
     if a[0] == 'range':
         return a[1] == b[1] and a[2] == b[2] and a[3] == b[3]
     if a[0] == 'cat':
-        return a == b
+        return a[1:3] == b[1:3] and (len(a) < 4 or a[3])
     if a[0] == 'cat2d':
         def pairs(st):
             return set((i, j) for i, js in st[1] for j in js if not near((F(i), F(j))))
@@ -241,20 +253,25 @@ class Cases:
         self.items = []
         self.n = 0
 
-    def add(self, spec, xkind, ykind, xs, ys, sub=None):
-        """xs / ys: list of labels (categorical) or floats incl. nan (numeric); same length"""
+    def add(self, spec, xkind, ykind, xs, ys, sub=None, xorder=None, yorder=None):
+        """xs / ys: list of labels (categorical) or floats incl. nan (numeric); same length;
+        xorder / yorder: explicit category order of a categorical component (None = sorted unique labels)"""
         from glue.core.subset import roi_to_subset_state
         R = self.R
-        xarr, xcodes, xcats = make_axis(xkind, xs, xs)
-        yarr, ycodes, ycats = make_axis(ykind, ys, ys)
+        xarr, xcodes, xcats = make_axis(xkind, xs, xs, xorder)
+        yarr, ycodes, ycats = make_axis(ykind, ys, ys, yorder)
         case = {'stream': self.stream, 'roi': jspec(spec), 'xkind': xkind, 'ykind': ykind,
                 'x': [str(v) if xkind == 'cat' else float(v) for v in xs], 'y': [str(v) if ykind == 'cat' else float(v) for v in ys]}
+        if xorder is not None:
+            case['xcats'] = list(xorder)
+        if yorder is not None:
+            case['ycats'] = list(yorder)
         if sub is not None:
             case['sub'] = sub
         self.n += 1
         mixed = (xkind == 'cat') != (ykind == 'cat')
         try:
-            d = build_data(xarr, yarr)
+            d = build_data(xarr, yarr, xorder if xkind == 'cat' else None, yorder if ykind == 'cat' else None)
             roi = build_roi(spec, xcats)
             st = roi_to_subset_state(roi, x_att=d.id['x'], y_att=d.id['y'], x_categories=xcats, y_categories=ycats)
             mask = np.asarray(st.to_mask(d)).astype(bool)
@@ -325,8 +342,8 @@ class Cases:
         outs = pmodel(R, [it[1] for it in self.items])
         for (case, line, cst, mask, orc, eps, truth, spec, bridge), o in zip(self.items, outs):
             nin = 0 if mask is None else int(mask.sum())
-            R.count((self.stream, repr(case['roi']), case['xkind'], case['ykind'], tuple(case['x']), tuple(case['y'])),
-                    nontrivial=mask is not None and 0 < nin < len(mask), stream=self.stream, kind=spec[0], axes=case['xkind'] + '/' + case['ykind'],
+            R.count((self.stream, repr(case['roi']), case['xkind'], case['ykind'], tuple(case['x']), tuple(case['y']), tuple(case.get('xcats', ())), tuple(case.get('ycats', ()))),
+                    nontrivial=mask is not None and 0 < nin < len(mask), cat_order=('explicit' if ('xcats' in case or 'ycats' in case) else 'sorted'), stream=self.stream, kind=spec[0], axes=case['xkind'] + '/' + case['ykind'],
                     path=cst[0], n_elements=len(case['x']))
             if is_err(o) or tag(o) != 0:
                 R.fail('correspondence', case, {'why': 'model returned an error', 'model': o})
@@ -461,6 +478,67 @@ def stream_axis_aligned(R):
                    '+-2^-30, +-1/8 and NaN; four axis-kind combinations; rectangles with theta in {0, pi, 2pi, -pi, pi + 9e-13}' % nmax)
 
 
+def stream_category_orders(R):
+    """categorical components with an EXPLICIT category order (every permutation of <= 4 labels, also with a label that does not occur
+    in the data) on every path that goes through from_range / CategoricalROI: range regions and unrotated rectangles, categorical
+    x / numeric y, numeric x / categorical y, both categorical.  Plotted position = index in the component's category order."""
+    from glue.core.roi import CategoricalROI
+    C = Cases(R, 'category_orders')
+    rng = R.subrng('co')
+    pool = ['a', 'b', 'c', 'd']
+    fr_cases = []
+    for n in range(2, 5):
+        perms = list(itertools.permutations(pool[:n]))
+        edges = [k - 0.5 for k in range(0, n + 1)] + [0.25, n - 1.0, -2.0, n + 3.0, 1 + TINY]
+        pairs = [(a, b) for a in edges for b in edges if a < b]
+        for ip, order in enumerate(perms):
+            present = list(order) if ip % 3 else list(order[:-1]) + [order[0]]      # every third: the last category has no element
+            mypairs = pairs if (n < 4 or not R.quick()) else rng.sample(pairs, 12)
+            for (lo, hi) in mypairs:
+                fr_cases.append((order, lo, hi))
+                nv = numeric_values([lo, hi])[:6] + [float('nan')]
+                xs_c = [lab for lab in present for _ in nv]
+                ys_n = [v for _ in present for v in nv]
+                C.add(('range', 'x', F(lo), F(hi)), 'cat', 'num', xs_c, ys_n, xorder=order)
+                C.add(('range', 'y', F(lo), F(hi)), 'num', 'cat', ys_n, xs_c, yorder=order)
+                order2 = perms[(ip * 7 + 3) % len(perms)]
+                lo2, hi2 = mypairs[(ip + len(fr_cases)) % len(mypairs)]
+                ang = [None, ('mult', 2, 0), ('mult', -2, 0)][len(fr_cases) % 3]
+                rect = ('rect', F(lo), F(hi), F(lo2), F(hi2), ang)
+                C.add(rect, 'cat', 'num', xs_c, ys_n, xorder=order)
+                C.add(rect, 'num', 'cat', ys_n, xs_c, yorder=order)
+                C.add(rect, 'cat', 'cat', [a for a in present for _ in order2], [b for _ in present for b in order2], xorder=order, yorder=order2)
+                C.add(('range', 'y', F(lo2), F(hi2)), 'cat', 'cat', [a for a in present for _ in order2], [b for _ in present for b in order2],
+                      xorder=order, yorder=order2)
+        C.finish()
+    # the label level on its own: stored categories of CategoricalROI.from_range (np.unique order) and its searchsorted-based contains
+    rank = {lab: i for i, lab in enumerate(sorted(pool))}
+    outs = pmodel(R, [enc((4, [(0, [rank[l] for l in order]), q(F(lo)), q(F(hi)), (0, [rank[l] for l in pool])])) for order, lo, hi in fr_cases])
+    for (order, lo, hi), o in zip(fr_cases, outs):
+        case = {'stream': 'category_orders', 'categories': list(order), 'lo': lo, 'hi': hi}
+        try:
+            roi = CategoricalROI.from_range(np.array(order), lo, hi)
+            stored = [rank[str(c)] for c in roi.categories]
+            cont = [bool(b) for b in np.asarray(roi.contains(np.array(pool), None))]
+        except Exception as e:
+            R.fail('oracle', case, {'why': 'from_range / contains raised %s: %s' % (type(e).__name__, e)})
+            continue
+        R.count(('co-fr', order, lo, hi), nontrivial=0 < len(stored) < len(order), stream='category_orders', kind='from_range', cat_order='explicit')
+        mstored = to_zs(kids(o)[0])
+        mcont = [bool(t_[0]) for t_ in kids(kids(o)[1])]
+        if stored != mstored or cont != mcont:
+            R.fail('correspondence', case, {'why': 'stored categories / contains of the CategoricalROI differ from the model',
+                                            'impl': [stored, cont], 'model': [mstored, mcont]})
+        want = [lab in order and lo < order.index(lab) < hi for lab in pool]
+        onb = [lab in order and order.index(lab) in (lo, hi) for lab in pool]
+        if any(c != w for c, w, b in zip(cont, want, onb) if not b):
+            R.fail('oracle', case, {'why': 'label selected != its position in the category order lies in (lo, hi)', 'contains': cont, 'expected': want})
+    R.stream('category_orders', cases=C.n, from_range_cases=len(fr_cases), exhaustive=not R.quick(),
+             bound='every permutation of 2..4 labels as the component categories (every third one with a category that has no element); '
+                   'range edges at k - 1/2 and a few others, all pairs (12 sampled per permutation for 4 labels in the quick tier); range x / range y / '
+                   'rectangle (theta 0, +-pi) on cat-num, num-cat, cat-cat')
+
+
 def lattice_polys(rng):
     """polygons with vertices on the half-integer lattice (so vertices and vertical edges fall on category positions)"""
     n = rng.randrange(3, 8)
@@ -518,6 +596,11 @@ def stream_polygon_like(R):
         py_ = LABEL_POOLS[rng.randrange(len(LABEL_POOLS))]
         ox = list(rng.choice(list(itertools.permutations(px_[:nx]))))
         oy = list(rng.choice(list(itertools.permutations(py_[:ny]))))
+        # half of the cases: the component carries an explicit category order (a permutation, possibly with an unused label)
+        xo = yo = None
+        if rng.random() < 0.5:
+            xo = list(rng.choice(list(itertools.permutations(px_[:nx] + (['zz'] if rng.random() < 0.3 else [])))))
+            yo = list(rng.choice(list(itertools.permutations(py_[:ny] + (['zz'] if rng.random() < 0.3 else [])))))
         combo = rng.choice(['cat/cat', 'cat/num', 'num/cat', 'num/num'])
         truth = Truth.of_spec(spec)
         vals = sorted(set([k / 4 for k in range(-6, 18)] + [float(round_grid(float(b[1]) + off)) for b in G.boundary_points(truth, rng, 10)
@@ -528,11 +611,11 @@ def stream_polygon_like(R):
             vals.append(float('nan'))
             valsx.append(float('nan'))
         if combo == 'cat/cat':
-            C.add(spec, 'cat', 'cat', [a for a in ox for _ in oy], [b for _ in ox for b in oy], sub=i)
+            C.add(spec, 'cat', 'cat', [a for a in ox for _ in oy], [b for _ in ox for b in oy], sub=i, xorder=xo, yorder=yo)
         elif combo == 'cat/num':
-            C.add(spec, 'cat', 'num', [a for a in ox for _ in vals], [v for _ in ox for v in vals], sub=i)
+            C.add(spec, 'cat', 'num', [a for a in ox for _ in vals], [v for _ in ox for v in vals], sub=i, xorder=xo)
         elif combo == 'num/cat':
-            C.add(spec, 'num', 'cat', [v for _ in oy for v in valsx], [b for b in oy for _ in valsx], sub=i)
+            C.add(spec, 'num', 'cat', [v for _ in oy for v in valsx], [b for b in oy for _ in valsx], sub=i, yorder=yo)
         else:
             P = G.make_points(truth, rng, 24, 12, truth.scale() * G.EPS_SCALE)
             C.add(spec, 'num', 'num', P[:, 0].tolist(), P[:, 1].tolist(), sub=i)
@@ -617,6 +700,7 @@ def run(R):
     stream_from_range(R)
     stream_categorical_roi(R)
     stream_line_intersections(R)
+    stream_category_orders(R)
     stream_axis_aligned(R)
     stream_polygon_like(R)
     R.sample({'roi': ['rect', -0.5, 2.5, 0.75, 1.5, None], 'xkind': 'cat', 'ykind': 'num', 'x': ['b', 'a', 'c'], 'y': [1.0, 0.75, float('nan')]})
@@ -637,7 +721,7 @@ def replay(R, case):
         ys = [v if case['ykind'] == 'cat' else float(v) for v in ys]
         Cl = G.Collect()
         C = Cases(Cl, case.get('stream', 'replay'))
-        C.add(spec, case['xkind'], case['ykind'], xs, ys)
+        C.add(spec, case['xkind'], case['ykind'], xs, ys, xorder=case.get('xcats'), yorder=case.get('ycats'))
         fails = [f['detail'] for f in Cl.failures if f['kind'] == 'oracle']
         out['oracle_failures'] = fails
         out['known_finding_keys'] = sorted(set(f['key'] for f in Cl.failures if f['kind'] == 'oracle' and f.get('key')))
